@@ -39,9 +39,9 @@ pub fn builtin_rules(p: &Program, l: Lang, a: &TRef) -> Option<Vec<Vec<TRef>>> {
                 Bi::Tuple => Some(vec![args.iter().map(mk).collect()]),
                 Bi::Array(_) => Some(vec![vec![mk(&args[0])]]),
                 Bi::FnPtr => yes,
-                // scalars, references, raw pointers, `!`: "provided in libcore" => only explicit impls
-                Bi::Scalar(_) | Bi::Ref(_) | Bi::Raw(_) | Bi::Never => None,
-                Bi::Slice | Bi::Str | Bi::Dyn(_) => no,
+                // scalars, str, `!`, raw pointers, shared references: "provided in libcore" => only the
+                // program's explicit impls; &mut, slices, dyn: not applicable => likewise no built-in rule
+                Bi::Scalar(_) | Bi::Ref(_) | Bi::Raw(_) | Bi::Never | Bi::Slice | Bi::Str | Bi::Dyn(_) => no,
             },
             Ty::Ph(..) => no,
             _ => None,
